@@ -481,6 +481,16 @@ DescribeStuck()
   return s;
 }
 
+std::string
+DeadlockProps()
+{
+  if (G.scn->deadlock_tags) {
+    std::string t = G.scn->deadlock_tags();
+    if (!t.empty()) return t;
+  }
+  return G.scn->deadlock_props;
+}
+
 void
 RecordViolation(const char *props, const std::string &sig, const std::string &msg, bool fatal)
 {
@@ -549,6 +559,16 @@ Choose(int cur)
         }
       }
       if (!blocked) return -1;  // everything finished
+      if (G.scn->on_quiescent && G.scn->on_quiescent()) {
+        G.stall = 0;
+        for (int i = 0; i < G.n; ++i)
+          if (G.th[i].st == S_BLOCKED) {
+            G.th[i].st = S_RUNNABLE;
+            ClearSpin(G.th[i]);
+            G.th[i].digest = Mix(G.th[i].digest, 0x57a7);
+          }
+        continue;
+      }
       if (G.stall >= G.cfg.stall_rounds) {
         std::string labels;
         for (int i = 0; i < G.n; ++i)
@@ -557,7 +577,7 @@ Choose(int cur)
             std::string c = G.th[i].call;
             labels += c.substr(0, c.find('@'));
           }
-        RecordViolation(G.scn->deadlock_props, "DEADLOCK:" + labels,
+        RecordViolation(DeadlockProps().c_str(), "DEADLOCK:" + labels,
                         "no thread can make progress:" + DescribeStuck(), true);
         FatalStop();
       }
@@ -911,7 +931,7 @@ pre(const Op &op_in)
     // an indivisible block that does not terminate on its own (it waits for another thread)
     EngineScope es;
     tl_quiet_ops = 0;
-    RecordViolation(G.scn->deadlock_props, "HORIZON:indivisible-block",
+    RecordViolation(DeadlockProps().c_str(), "HORIZON:indivisible-block",
                     "a call made inside an indivisible block does not return (it waits for a thread that cannot run):" + DescribeStuck(), true);
     FatalStop();
   }
@@ -921,7 +941,7 @@ pre(const Op &op_in)
   Op op = op_in;
   op.site = __builtin_return_address(0);
   if (++G.steps > static_cast<uint64_t>(G.cfg.max_steps)) {
-    RecordViolation(G.scn->deadlock_props, "HORIZON", "execution exceeded the step horizon:" + DescribeStuck(), true);
+    RecordViolation(DeadlockProps().c_str(), "HORIZON", "execution exceeded the step horizon:" + DescribeStuck(), true);
     FatalStop();
   }
   if (G.scn->on_point) G.scn->on_point(t.id);
